@@ -110,6 +110,7 @@ func defaultProxyServer(ctx context.Context, handler http.Handler, tlsConfig *tl
 	svr.MetricsRegistry = PrometheusRegistry
 
 	svr.HTTPServer.IdleTimeout = parseHTTPIdleTimeout()
+	svr.HTTP2Server.IdleTimeout = svr.HTTPServer.IdleTimeout
 	svr.HTTPServer.ReadTimeout = parseHTTPReadTimeout()
 	svr.HTTPServer.WriteTimeout = parseHTTPWriteTimeout()
 	svr.TLSHandshakeTimeout = parseTLSHandshakeTimeout()
